@@ -1,10 +1,843 @@
-// Checks that are not plain batches of plans (fault enumerations etc.). Filled in later.
+// Checks that are fault enumerations rather than batches of random plans:
+//   C20  self-test gating: corrupt each self-test entry (and subsets) through the
+//        existing callback seam, on every variant and init function
+//   C08  (second half) CPU-feature loss: init with required features hidden
+// Each case is a small JSON record; replay = re-evaluate the record.
 #include "driver.h"
+#include <setjmp.h>
+#include <signal.h>
+#include <unistd.h>
+#include <sys/stat.h>
+
+extern uint64_t g_cpuid_remove;
+extern uint64_t g_cpuid_calls;
+
+namespace {
+
+struct CbEvent {
+        std::string phase, type, descr;
+};
+struct CbState {
+        std::vector<CbEvent> ev;
+        std::set<int> corrupt; // indices of CORRUPT callbacks that return 0
+        int n_corrupt_seen = 0;
+};
+
+int
+selftest_cb(void *arg, const IMB_SELF_TEST_CALLBACK_DATA *d)
+{
+        CbState *s = (CbState *) arg;
+        CbEvent e;
+        if (d) {
+                e.phase = d->phase ? d->phase : "";
+                e.type = d->type ? d->type : "";
+                e.descr = d->descr ? d->descr : "";
+        }
+        s->ev.push_back(e);
+        if (e.phase == IMB_SELF_TEST_PHASE_CORRUPT) {
+                int idx = s->n_corrupt_seen++;
+                if (s->corrupt.count(idx))
+                        return 0;
+        }
+        return 1;
+}
+
+sigjmp_buf sp_jmp;
+volatile sig_atomic_t sp_armed = 0;
+void
+sp_fault(int sig)
+{
+        if (sp_armed) {
+                sp_armed = 0;
+                siglongjmp(sp_jmp, sig);
+        }
+        _exit(3);
+}
+void
+sp_handlers()
+{
+        struct sigaction sa;
+        memset(&sa, 0, sizeof sa);
+        sa.sa_handler = sp_fault;
+        sa.sa_flags = SA_NODEFER | SA_ONSTACK;
+        sigaction(SIGSEGV, &sa, nullptr);
+        sigaction(SIGBUS, &sa, nullptr);
+        sigaction(SIGILL, &sa, nullptr);
+}
+
+// park a few AES-CBC encrypt jobs (they stay in lanes) so that an init happens "mid-flight"
+void
+park_jobs(Mgr &g, int n, uint64_t seed)
+{
+        Rng r(seed);
+        Suite s;
+        s.cipher = IMB_CIPHER_CBC;
+        s.key_len = 16;
+        GenOpts go;
+        go.max_len = 256;
+        go.len_profile = LEN_TINY;
+        for (int i = 0; i < n; i++) {
+                JobSpec js = gen_job(r, s, go);
+                MatJob *mj = new MatJob; // leaked on purpose: buffers must outlive the parked job
+                materialize(*mj, js, g.m, g.img);
+                IMB_JOB *j = L_get_next_job(g.m);
+                *j = mj->tmpl;
+                L_submit_job(g.m);
+        }
+}
+
+// ---------------------------------------------------------------- C20
+struct StCase {
+        int cfg = 0;
+        int via_auto = 0;      // 1: init_mb_mgr_auto under a CPUID mask that makes cfg's arch the best one
+        int parked = 0;        // jobs parked before the init (F3)
+        std::vector<int> corrupt;
+};
+
+uint64_t
+auto_mask_for_arch(int arch)
+{
+        if (arch == ARCH_AVX512)
+                return 0;
+        if (arch == ARCH_AVX2)
+                return IMB_FEATURE_AVX512F | IMB_FEATURE_AVX512DQ | IMB_FEATURE_AVX512CD | IMB_FEATURE_AVX512BW |
+                       IMB_FEATURE_AVX512VL;
+        return IMB_FEATURE_AVX512F | IMB_FEATURE_AVX512DQ | IMB_FEATURE_AVX512CD | IMB_FEATURE_AVX512BW |
+               IMB_FEATURE_AVX512VL | IMB_FEATURE_AVX2 | IMB_FEATURE_AVX;
+}
+
+struct StOut {
+        std::vector<CbEvent> ev;
+        bool pass_bit = false, st_bit = false;
+        int err = 0;
+        int used_arch = 0;
+        bool crashed = false;
+};
+
+StOut
+run_init(const StCase &c, Mgr &g, bool fresh)
+{
+        StOut o;
+        CbState st;
+        for (int i : c.corrupt)
+                st.corrupt.insert(i);
+        g_cpuid_remove = c.via_auto ? auto_mask_for_arch(cfg_arch(c.cfg)) : 0;
+        if (fresh) {
+                size_t sz = g.img->imb_get_mb_mgr_size();
+                g.mem = arena::alloc((uint32_t) sz, arena::PLACE_MID, 64, 0);
+                g.m = (IMB_MGR *) tc("imb_set_pointers_mb_mgr", g.img->imb_set_pointers_mb_mgr, g.mem.p, cfg_flags(c.cfg), 1u);
+                g.cfg = c.cfg;
+        }
+        tc("imb_self_test_set_cb", g.img->imb_self_test_set_cb, g.m, selftest_cb, &st);
+        if (sigsetjmp(sp_jmp, 1) == 0) {
+                sp_armed = 1;
+                if (c.via_auto)
+                        tc("init_mb_mgr_auto", g.img->init_auto, g.m, (IMB_ARCH *) nullptr);
+                else
+                        tc("init_mb_mgr", g.img->init[cfg_arch(c.cfg)], g.m);
+                sp_armed = 0;
+        } else
+                o.crashed = true;
+        g_cpuid_remove = 0;
+        o.ev = st.ev;
+        o.pass_bit = (g.m->features & IMB_FEATURE_SELF_TEST_PASS) != 0;
+        o.st_bit = (g.m->features & IMB_FEATURE_SELF_TEST) != 0;
+        o.err = g.m->imb_errno;
+        o.used_arch = (int) g.m->used_arch;
+        tc("imb_self_test_set_cb", g.img->imb_self_test_set_cb, g.m, (imb_self_test_cb_t) nullptr, (void *) nullptr);
+        return o;
+}
+
+struct Entry {
+        std::string type, descr;
+};
+
+// parse callback stream into entries; returns false (with why) when the stream is malformed
+bool
+parse_stream(const std::vector<CbEvent> &ev, std::vector<Entry> &ents, std::vector<int> &result, std::string &why)
+{
+        size_t i = 0;
+        while (i < ev.size()) {
+                if (ev[i].phase != IMB_SELF_TEST_PHASE_START) {
+                        why = "callback #" + std::to_string(i) + " is '" + ev[i].phase + "' where START was expected";
+                        return false;
+                }
+                Entry e{ ev[i].type, ev[i].descr };
+                i++;
+                if (i >= ev.size() || ev[i].phase != IMB_SELF_TEST_PHASE_CORRUPT) {
+                        why = "START of '" + e.descr + "' not followed by CORRUPT";
+                        return false;
+                }
+                i++;
+                if (i >= ev.size() || (ev[i].phase != IMB_SELF_TEST_PHASE_PASS && ev[i].phase != IMB_SELF_TEST_PHASE_FAIL)) {
+                        why = "entry '" + e.descr + "' has no PASS/FAIL callback";
+                        return false;
+                }
+                result.push_back(ev[i].phase == IMB_SELF_TEST_PHASE_PASS ? 1 : 0);
+                ents.push_back(e);
+                i++;
+        }
+        return true;
+}
+
+struct DocAlg {
+        const char *type, *needle, *doc;
+};
+const DocAlg k_documented[] = {
+        { IMB_SELF_TEST_TYPE_KAT_AEAD, "GCM", "AES-GCM" },        { IMB_SELF_TEST_TYPE_KAT_AEAD, "CCM", "AES-CCM" },
+        { IMB_SELF_TEST_TYPE_KAT_CIPHER, "CBC", "AES-CBC" },      { IMB_SELF_TEST_TYPE_KAT_CIPHER, "CTR", "AES-CTR" },
+        { IMB_SELF_TEST_TYPE_KAT_CIPHER, "ECB", "AES-ECB" },      { IMB_SELF_TEST_TYPE_KAT_CIPHER, "CFB", "AES-CFB" },
+        { IMB_SELF_TEST_TYPE_KAT_CIPHER, "TDES", "TDES-EDE-CBC" }, { IMB_SELF_TEST_TYPE_KAT_AUTH, "GMAC", "AES-GMAC" },
+        { IMB_SELF_TEST_TYPE_KAT_AUTH, "CMAC", "AES-CMAC" },      { IMB_SELF_TEST_TYPE_KAT_AUTH, "SHA1", "SHA1" },
+        { IMB_SELF_TEST_TYPE_KAT_AUTH, "224", "SHA224" },         { IMB_SELF_TEST_TYPE_KAT_AUTH, "256", "SHA256" },
+        { IMB_SELF_TEST_TYPE_KAT_AUTH, "384", "SHA384" },         { IMB_SELF_TEST_TYPE_KAT_AUTH, "512", "SHA512" },
+        { IMB_SELF_TEST_TYPE_KAT_AUTH, "SHA1", "HMAC-SHA1" },     { IMB_SELF_TEST_TYPE_KAT_AUTH, "224", "HMAC-SHA224" },
+        { IMB_SELF_TEST_TYPE_KAT_AUTH, "256", "HMAC-SHA256" },    { IMB_SELF_TEST_TYPE_KAT_AUTH, "384", "HMAC-SHA384" },
+        { IMB_SELF_TEST_TYPE_KAT_AUTH, "512", "HMAC-SHA512" },
+};
+
+std::string
+st_case_json(const StCase &c)
+{
+        JW w;
+        w.obj();
+        w.str("special", "C20").num("cfg", c.cfg).str("variant", cfg_name(c.cfg)).num("via_auto", c.via_auto).num("parked", c.parked);
+        w.arr("corrupt");
+        for (int i : c.corrupt)
+                w.anum(i);
+        w.end_arr();
+        w.end_obj();
+        return w.out;
+}
+
+// evaluate one C20 case; n_entries: number of self-test entries (0 = discover)
+std::vector<Violation>
+eval_st(const StCase &c, std::vector<Entry> *entries_out = nullptr)
+{
+        std::vector<Violation> v;
+        auto bad = [&](const std::string &oracle, const std::string &d) {
+                Violation x;
+                x.prop = "C20";
+                x.oracle = oracle;
+                x.detail = d + " [" + std::string(cfg_name(c.cfg)) + (c.via_auto ? " via init_mb_mgr_auto" : "") +
+                           (c.parked ? ", jobs parked" : "") + "]";
+                v.push_back(x);
+        };
+        arena::reset();
+        Mgr g;
+        StCase first = c;
+        first.corrupt.clear();
+        if (c.parked) {
+                // manager already in use with jobs parked, then the init under test. The CPUID mask (if any)
+                // is in force from the start: CPU features do not change while a process runs.
+                g_cpuid_remove = c.via_auto ? auto_mask_for_arch(cfg_arch(c.cfg)) : 0;
+                if (!mgr_create(g, c.cfg)) {
+                        bad("selftest.setup", "could not create manager");
+                        return v;
+                }
+                park_jobs(g, c.parked, 0xC20 + (uint64_t) c.cfg);
+        }
+        StOut o = run_init(c, g, !c.parked);
+        if (o.crashed) {
+                bad("selftest.crash", "initialisation crashed");
+                return v;
+        }
+        std::vector<Entry> ents;
+        std::vector<int> res;
+        std::string why;
+        if (!parse_stream(o.ev, ents, res, why)) {
+                bad("selftest.stream", "malformed callback stream: " + why);
+                return v;
+        }
+        if (entries_out)
+                *entries_out = ents;
+        if (!o.st_bit)
+                bad("selftest.feature_bit", "IMB_FEATURE_SELF_TEST not set after init");
+        if (ents.empty())
+                bad("selftest.not_run", "initialisation made no self-test callbacks");
+        std::set<int> cs(c.corrupt.begin(), c.corrupt.end());
+        for (size_t i = 0; i < ents.size(); i++) {
+                bool expect_pass = !cs.count((int) i);
+                if ((res[i] != 0) != expect_pass) {
+                        bad(expect_pass ? "selftest.spurious_fail" : "selftest.missed",
+                            std::string("entry #") + std::to_string(i) + " '" + ents[i].descr + "' (" + ents[i].type + ") reported " +
+                                    (res[i] ? "PASS" : "FAIL") + (expect_pass ? " without corruption" : " although its input was corrupted"));
+                }
+        }
+        bool any_corrupt = false;
+        for (int i : c.corrupt)
+                if (i < (int) ents.size())
+                        any_corrupt = true;
+        if (any_corrupt) {
+                if (o.pass_bit)
+                        bad("selftest.pass_bit", "self-test pass bit set although a self-test input was corrupted");
+                if (o.err != IMB_ERR_SELFTEST)
+                        bad("selftest.errno", "error code is " + std::to_string(o.err) + " instead of IMB_ERR_SELFTEST after a failed self-test");
+        } else {
+                if (!o.pass_bit)
+                        bad("selftest.pass_bit", "self-test pass bit not set after a clean initialisation");
+                if (o.err != 0)
+                        bad("selftest.errno", "error code " + std::to_string(o.err) + " after a clean initialisation");
+                // every documented algorithm is announced with the documented type
+                for (auto &d : k_documented) {
+                        bool found = false;
+                        const std::string doc = d.doc;
+                        const bool is_sha = doc.find("SHA") != std::string::npos;
+                        const bool want_hmac = doc.find("HMAC") != std::string::npos;
+                        for (auto &e : ents) {
+                                if (e.type != d.type || e.descr.find(d.needle) == std::string::npos)
+                                        continue;
+                                if (is_sha) {
+                                        // descriptions look like "SHA2-256" / "HMAC-SHA2-256": require SHA and the right HMAC-ness
+                                        if (e.descr.find("SHA") == std::string::npos)
+                                                continue;
+                                        if ((e.descr.find("HMAC") != std::string::npos) != want_hmac)
+                                                continue;
+                                }
+                                found = true;
+                        }
+                        if (!found)
+                                bad("selftest.undocumented", std::string("documented self-test algorithm ") + d.doc + " (" + d.type +
+                                                                     ") is not announced by the callback sequence");
+                }
+        }
+        // the expected architecture was actually initialised
+        if (o.used_arch != cfg_arch(c.cfg) + 1)
+                bad("selftest.arch", "used_arch is " + std::to_string(o.used_arch));
+        // a following clean init on the same manager passes again
+        if (any_corrupt && v.empty()) {
+                StOut o2 = run_init(first, g, false);
+                if (o2.crashed || !o2.pass_bit || o2.err != 0)
+                        bad("selftest.recover", "a clean initialisation after a failed self-test did not pass");
+        }
+        return v;
+}
+
+// ---------------------------------------------------------------- C08 W2
+struct CpuCase {
+        int init_fn = 0;        // 0 sse 1 avx2 2 avx512 3 auto
+        uint64_t remove = 0;    // IMB_FEATURE_* bits hidden from CPUID
+        int prior_cfg = -1;     // -1 fresh manager, else previously initialised as this cfg (must be supported under mask)
+        int parked = 0;
+};
+
+uint64_t
+required_features(int init_fn)
+{
+        switch (init_fn) {
+        case 0: return IMB_CPUFLAGS_SSE;
+        case 1: return IMB_CPUFLAGS_AVX2;
+        case 2: return IMB_CPUFLAGS_AVX512;
+        default: return IMB_CPUFLAGS_SSE;
+        }
+}
+
+const char *
+feature_name(uint64_t f)
+{
+        switch (f) {
+        case IMB_FEATURE_SHANI: return "SHANI";
+        case IMB_FEATURE_AESNI: return "AESNI";
+        case IMB_FEATURE_PCLMULQDQ: return "PCLMULQDQ";
+        case IMB_FEATURE_CMOV: return "CMOV";
+        case IMB_FEATURE_SSE4_2: return "SSE4_2";
+        case IMB_FEATURE_AVX: return "AVX";
+        case IMB_FEATURE_AVX2: return "AVX2";
+        case IMB_FEATURE_AVX512F: return "AVX512F";
+        case IMB_FEATURE_AVX512DQ: return "AVX512DQ";
+        case IMB_FEATURE_AVX512CD: return "AVX512CD";
+        case IMB_FEATURE_AVX512BW: return "AVX512BW";
+        case IMB_FEATURE_AVX512VL: return "AVX512VL";
+        case IMB_FEATURE_VAES: return "VAES";
+        case IMB_FEATURE_VPCLMULQDQ: return "VPCLMULQDQ";
+        case IMB_FEATURE_GFNI: return "GFNI";
+        case IMB_FEATURE_AVX512_IFMA: return "AVX512_IFMA";
+        case IMB_FEATURE_BMI2: return "BMI2";
+        case IMB_FEATURE_XSAVE: return "XSAVE";
+        case IMB_FEATURE_OSXSAVE: return "OSXSAVE";
+        }
+        return "?";
+}
+std::string
+feature_set_str(uint64_t m)
+{
+        std::string s;
+        for (int b = 0; b < 40; b++)
+                if (m & (1ull << b)) {
+                        if (!s.empty())
+                                s += "+";
+                        s += feature_name(1ull << b);
+                }
+        return s.empty() ? "none" : s;
+}
+
+std::string
+cpu_case_json(const CpuCase &c)
+{
+        static const char *fn[] = { "init_mb_mgr_sse", "init_mb_mgr_avx2", "init_mb_mgr_avx512", "init_mb_mgr_auto" };
+        JW w;
+        w.obj();
+        w.str("special", "C08").num("init_fn", c.init_fn).str("init", fn[c.init_fn]).unum("remove", c.remove);
+        w.str("removed_features", feature_set_str(c.remove)).num("prior_cfg", c.prior_cfg).num("parked", c.parked);
+        w.end_obj();
+        return w.out;
+}
+
+std::vector<Violation>
+eval_cpu(const CpuCase &c)
+{
+        std::vector<Violation> v;
+        static const char *fn[] = { "init_mb_mgr_sse", "init_mb_mgr_avx2", "init_mb_mgr_avx512", "init_mb_mgr_auto" };
+        auto bad = [&](const std::string &oracle, const std::string &d) {
+                Violation x;
+                x.prop = "C08";
+                x.oracle = oracle;
+                x.detail = d + " [" + fn[c.init_fn] + " with " + feature_set_str(c.remove) + " hidden, " +
+                           (c.prior_cfg < 0 ? std::string("fresh manager") : std::string("manager previously initialised as ") + cfg_name(c.prior_cfg)) +
+                           (c.parked ? ", jobs parked" : "") + "]";
+                x.key = std::string("init=") + fn[c.init_fn] + ";state=" + (c.prior_cfg < 0 ? "fresh" : "reinit");
+                v.push_back(x);
+        };
+        arena::reset();
+        Mgr g;
+        g_cpuid_remove = c.remove;
+        // which outcome is expected?
+        uint64_t req = required_features(c.init_fn);
+        bool expect_fail = (req & c.remove) != 0;
+        int expect_arch = c.init_fn + 1;
+        if (c.init_fn == 3) {
+                // auto: best architecture still available
+                if (!(IMB_CPUFLAGS_AVX512 & c.remove))
+                        expect_arch = 3;
+                else if (!(IMB_CPUFLAGS_AVX2 & c.remove))
+                        expect_arch = 2;
+                else if (!(IMB_CPUFLAGS_SSE & c.remove))
+                        expect_arch = 1;
+                else
+                        expect_arch = 0;
+                expect_fail = expect_arch == 0;
+        }
+        CbState st;
+        int prior_arch = 0;
+        void *prior_submit = nullptr;
+        std::vector<MatJob *> parked;
+        if (sigsetjmp(sp_jmp, 1) == 0) {
+                sp_armed = 1;
+                if (c.prior_cfg >= 0) {
+                        if (!mgr_create(g, c.prior_cfg)) {
+                                sp_armed = 0;
+                                g_cpuid_remove = 0;
+                                return v; // prior architecture itself unsupported under this mask: not a case
+                        }
+                        if (c.parked)
+                                park_jobs(g, c.parked, 0xC08 + c.remove);
+                        prior_arch = (int) g.m->used_arch;
+                        prior_submit = (void *) g.m->submit_job;
+                } else {
+                        size_t sz = g.img->imb_get_mb_mgr_size();
+                        g.mem = arena::alloc((uint32_t) sz, arena::PLACE_MID, 64, 0);
+                        g.m = (IMB_MGR *) tc("imb_set_pointers_mb_mgr", g.img->imb_set_pointers_mb_mgr, g.mem.p, (uint64_t) 0, 1u);
+                }
+                tc("imb_self_test_set_cb", g.img->imb_self_test_set_cb, g.m, selftest_cb, &st);
+                if (c.init_fn == 3)
+                        tc("init_mb_mgr_auto", g.img->init_auto, g.m, (IMB_ARCH *) nullptr);
+                else
+                        tc("init_mb_mgr", g.img->init[c.init_fn], g.m);
+                sp_armed = 0;
+        } else {
+                g_cpuid_remove = 0;
+                bad("variant.init_crash", "initialisation crashed instead of failing cleanly");
+                return v;
+        }
+        g_cpuid_remove = 0;
+        int err = g.m->imb_errno;
+        if (expect_fail) {
+                if (err != IMB_ERR_MISSING_CPUFLAGS_INIT_MGR)
+                        bad("variant.missing_flags_errno",
+                            "error code is " + std::to_string(err) + " instead of IMB_ERR_MISSING_CPUFLAGS_INIT_MGR");
+                if (!st.ev.empty())
+                        bad("variant.ran_selftest", "the self-test ran (" + std::to_string(st.ev.size()) +
+                                                            " callbacks) although required CPU features are missing");
+                if (c.prior_cfg >= 0) {
+                        if ((int) g.m->used_arch != prior_arch || (void *) g.m->submit_job != prior_submit)
+                                bad("variant.state_changed", "a refused initialisation changed the manager's architecture / entry points");
+                        else if (v.empty()) {
+                                // the manager still works: parked jobs flush in order and complete
+                                int n = 0;
+                                IMB_JOB *j;
+                                while ((j = L_flush_job(g.m)) != nullptr && n < 300) {
+                                        if (j->status != IMB_STATUS_COMPLETED)
+                                                bad("variant.after_refusal", "job flushed after a refused init is not COMPLETED");
+                                        n++;
+                                }
+                                if (n != c.parked)
+                                        bad("variant.after_refusal", "flushed " + std::to_string(n) + " jobs after a refused init, " +
+                                                                             std::to_string(c.parked) + " were parked");
+                        }
+                }
+        } else {
+                if (err != 0)
+                        bad("variant.init_errno", "initialisation failed with error " + std::to_string(err) + " although all required features are present");
+                if ((int) g.m->used_arch != expect_arch)
+                        bad("variant.auto_choice", "used_arch is " + std::to_string((int) g.m->used_arch) + ", expected " + std::to_string(expect_arch));
+                if (!(g.m->features & IMB_FEATURE_SELF_TEST_PASS))
+                        bad("variant.selftest", "self-test did not pass");
+                // hidden optional features must not be reported as present
+                if (g.m->features & c.remove)
+                        bad("variant.features", "manager reports features that CPUID does not");
+        }
+        return v;
+}
+
+// ---------------------------------------------------------------- generic special driver
+struct SpecialOut {
+        uint64_t evals = 0;
+        std::set<std::string> distinct;
+        std::vector<std::string> samples;
+        int viol = 0;
+        std::map<std::string, uint64_t> counters;
+};
+
+void
+report_special(const BatchCfg &cfg, const std::string &case_json, const std::vector<Violation> &vs, SpecialOut &so,
+               const std::vector<KnownFinding> &known)
+{
+        so.evals++;
+        so.distinct.insert(case_json);
+        if (so.samples.size() < 3 && (so.evals % 97 == 1))
+                so.samples.push_back(case_json);
+        std::set<std::string> seen;
+        for (auto &v : vs) {
+                if (v.prop != cfg.prop) {
+                        printf("NOTE other-property=%s oracle=%s %s\n", v.prop.c_str(), v.oracle.c_str(), v.detail.c_str());
+                        continue;
+                }
+                if (seen.count(v.oracle))
+                        continue;
+                seen.insert(v.oracle);
+                if (const KnownFinding *k = match_known(known, v)) {
+                        printf("KNOWN-FINDING: property=%s %s\n", v.prop.c_str(), k->what.c_str());
+                        continue;
+                }
+                so.viol++;
+                if (so.viol > 12)
+                        continue;
+                char path[512];
+                snprintf(path, sizeof path, "%s/replays/%s-special-%llu-%s.json", out_dir().c_str(), cfg.prop.c_str(),
+                         (unsigned long long) so.evals, v.oracle.c_str());
+                JW w;
+                w.obj();
+                w.str("property", v.prop).str("oracle", v.oracle).str("key", v.key).str("detail", v.detail);
+                w.raw("case", case_json);
+                w.end_obj();
+                write_file(path, w.out);
+                printf("VIOLATION property=%s replay=%s\n  oracle=%s %s\n", v.prop.c_str(), path, v.oracle.c_str(), v.detail.c_str());
+        }
+}
+
+void
+write_special_evidence(const BatchCfg &cfg, const SpecialOut &so, const std::string &rule, bool exhaustive, double wall,
+                       const std::vector<std::string> &assumptions, const std::string &extra)
+{
+        JW w;
+        w.obj();
+        w.str("property_id", cfg.prop).str("tier", cfg.tier).num("seed", (int64_t) cfg.seed).str("level", cfg.level);
+        w.obj("coverage");
+        w.num("evaluations", (int64_t) so.evals).num("distinct_nontrivial", (int64_t) so.distinct.size()).str("rule", rule);
+        w.arr("samples");
+        for (auto &s : so.samples)
+                w.raw(nullptr, s);
+        w.end_arr();
+        w.boolean("exhaustive", exhaustive);
+        w.dbl("runs_per_hour", wall > 0 ? (double) so.evals / wall * 3600 : 0);
+        w.str("simulated_time", "none: the system has no clock; one evaluation = one initialisation (plus its self-test) under the injected fault");
+        w.obj("counters");
+        for (auto &kv : so.counters)
+                w.num(kv.first.c_str(), (int64_t) kv.second);
+        w.end_obj();
+        w.str("components_real", "all library code incl. the self-test, linked from the archive rebuilt from /repo");
+        w.str("components_stubbed", extra);
+        w.end_obj();
+        w.arr("assumptions");
+        for (auto &a : assumptions)
+                w.astr(a);
+        w.end_arr();
+        w.dbl("wall_s", wall).num("violations", so.viol);
+        w.end_obj();
+        mkdir((out_dir() + "/evidence").c_str(), 0755);
+        mkdir((out_dir() + "/replays").c_str(), 0755);
+        write_file(out_dir() + "/evidence/" + cfg.prop + ".json", w.out);
+}
+
+int
+check_c20(BatchCfg &cfg)
+{
+        const double t0 = now_s();
+        const bool th = cfg.tier == "thorough";
+        cfg.level = "fault_enumeration";
+        std::vector<KnownFinding> known = load_known(verif_dir() + "/known_findings.json");
+        SpecialOut so;
+        Rng r(cfg.seed * 7919 + 20);
+        arena::init();
+        sp_handlers();
+        for (int cfg_i = 0; cfg_i < NCFG; cfg_i++) {
+                for (int via_auto = 0; via_auto < 2; via_auto++) {
+                        // auto cannot apply SHANI/GFNI-off selection differently: flags are honoured the same way
+                        StCase base;
+                        base.cfg = cfg_i;
+                        base.via_auto = via_auto;
+                        std::vector<Entry> ents;
+                        auto vs = eval_st(base, &ents);
+                        report_special(cfg, st_case_json(base), vs, so, known);
+                        so.counters["clean_inits"]++;
+                        int n = (int) ents.size();
+                        so.counters["self_test_entries_seen_max"] = std::max<uint64_t>(so.counters["self_test_entries_seen_max"], (uint64_t) n);
+                        if (n == 0)
+                                continue;
+                        // exhaustive singles
+                        for (int i = 0; i < n; i++) {
+                                StCase c = base;
+                                c.corrupt = { i };
+                                report_special(cfg, st_case_json(c), eval_st(c), so, known);
+                                so.counters["single_corruptions"]++;
+                        }
+                        // pairs: exhaustive in thorough, sampled in quick
+                        int npairs = th ? n * (n - 1) / 2 : 12;
+                        if (th) {
+                                if (via_auto == 0 || cfg_i % 4 == 0)
+                                        for (int i = 0; i < n; i++)
+                                                for (int j = i + 1; j < n; j++) {
+                                                        StCase c = base;
+                                                        c.corrupt = { i, j };
+                                                        report_special(cfg, st_case_json(c), eval_st(c), so, known);
+                                                        so.counters["pair_corruptions"]++;
+                                                }
+                        } else
+                                for (int k = 0; k < npairs; k++) {
+                                        StCase c = base;
+                                        int i = (int) r.below((uint32_t) n), j = (int) r.below((uint32_t) n);
+                                        if (i == j)
+                                                continue;
+                                        c.corrupt = { std::min(i, j), std::max(i, j) };
+                                        report_special(cfg, st_case_json(c), eval_st(c), so, known);
+                                        so.counters["pair_corruptions"]++;
+                                }
+                        // random larger subsets, all, and out-of-range index (no corruption happens)
+                        for (int k = 0; k < (th ? 20 : 4); k++) {
+                                StCase c = base;
+                                for (int i = 0; i < n; i++)
+                                        if (r.chance(0.3))
+                                                c.corrupt.push_back(i);
+                                report_special(cfg, st_case_json(c), eval_st(c), so, known);
+                                so.counters["subset_corruptions"]++;
+                        }
+                        {
+                                StCase c = base;
+                                for (int i = 0; i < n; i++)
+                                        c.corrupt.push_back(i);
+                                report_special(cfg, st_case_json(c), eval_st(c), so, known);
+                                so.counters["all_corrupted"]++;
+                        }
+                        // F3: corrupted init in the middle of use, jobs parked
+                        for (int k = 0; k < (th ? 8 : 2); k++) {
+                                StCase c = base;
+                                c.parked = 1 + (int) r.below(6);
+                                c.corrupt = { (int) r.below((uint32_t) n) };
+                                if (k & 1)
+                                        c.corrupt.clear();
+                                report_special(cfg, st_case_json(c), eval_st(c), so, known);
+                                so.counters["init_with_jobs_parked"]++;
+                        }
+                }
+        }
+        write_special_evidence(
+                cfg, so,
+                "One evaluation = one manager initialisation with a set S of self-test entries corrupted through the "
+                "imb_self_test_set_cb() CORRUPT callback (fault F6). Enumerated: 12 variant configurations x {explicit init, "
+                "init_mb_mgr_auto under a CPUID mask} x {no corruption, every single entry (exhaustive), pairs (sampled in quick, "
+                "all in thorough), random subsets, all entries} plus inits injected while jobs are parked (F3). distinct = "
+                "distinct (configuration, init function, parked, S) records; all are non-trivial (each runs the whole self-test).",
+                true, now_s() - t0,
+                { "README 'Self-Test' list is the reference for documented algorithms", "variants AVX2 t3/t4 not executable on this host" },
+                "mbcpuid is wrapped at link time (real CPUID with feature bits hidden) to steer init_mb_mgr_auto");
+        printf("C20 %s: %llu initialisations, %zu distinct cases, %.1f s, %d violation(s)\n", cfg.tier.c_str(),
+               (unsigned long long) so.evals, so.distinct.size(), now_s() - t0, so.viol);
+        return so.viol ? 1 : 0;
+}
+
+int
+check_c08_w2(BatchCfg &cfg, SpecialOut &so)
+{
+        const bool th = cfg.tier == "thorough";
+        std::vector<KnownFinding> known = load_known(verif_dir() + "/known_findings.json");
+        Rng r(cfg.seed * 104729 + 8);
+        arena::init();
+        sp_handlers();
+        for (int fn = 0; fn < 4; fn++) {
+                uint64_t req = fn == 3 ? (uint64_t) IMB_CPUFLAGS_AVX512 : required_features(fn);
+                std::vector<uint64_t> masks;
+                for (int b = 0; b < 40; b++)
+                        if (req & (1ull << b))
+                                masks.push_back(1ull << b); // each single required feature
+                for (int k = 0; k < (th ? 60 : 12); k++) {
+                        uint64_t m = 0;
+                        for (int b = 0; b < 40; b++)
+                                if ((req & (1ull << b)) && r.chance(0.25))
+                                        m |= 1ull << b;
+                        if (m)
+                                masks.push_back(m);
+                }
+                // optional features only: init must still succeed (with a lower type)
+                masks.push_back(IMB_FEATURE_SHANI);
+                masks.push_back(IMB_FEATURE_GFNI);
+                masks.push_back(IMB_FEATURE_VAES | IMB_FEATURE_VPCLMULQDQ);
+                masks.push_back(IMB_FEATURE_AVX512_IFMA);
+                masks.push_back(0);
+                for (uint64_t m : masks) {
+                        CpuCase c;
+                        c.init_fn = fn;
+                        c.remove = m;
+                        report_special(cfg, cpu_case_json(c), eval_cpu(c), so, known);
+                        so.counters["cpuid_mask_fresh_manager"]++;
+                        // previously initialised for each arch that is still supported under the mask
+                        for (int pa = 0; pa < 3; pa++) {
+                                if (required_features(pa) & m)
+                                        continue;
+                                CpuCase d = c;
+                                d.prior_cfg = pa * 4 + (int) r.below(4);
+                                d.parked = (int) r.below(5);
+                                report_special(cfg, cpu_case_json(d), eval_cpu(d), so, known);
+                                so.counters["cpuid_mask_reinit_of_working_manager"]++;
+                        }
+                }
+        }
+        return so.viol;
+}
+
+} // namespace
+
+CaseSource source_for(const std::string &profile, const std::string &prop, int tier);
+
 int
 special_check(const std::string &prop, BatchCfg &cfg, bool &handled)
 {
-        (void) prop;
-        (void) cfg;
         handled = false;
+        if (prop == "C20") {
+                handled = true;
+                return check_c20(cfg);
+        }
+        if (prop == "C08W2") {
+                handled = true;
+                SpecialOut so;
+                cfg.prop = "C08";
+                int n = check_c08_w2(cfg, so);
+                printf("C08 (cpu-feature loss): %llu initialisations, %d violation(s)\n", (unsigned long long) so.evals, n);
+                return n ? 1 : 0;
+        }
         return 0;
+}
+
+// used by the C08 registry entry: run W2 first, return its evidence fragment
+int
+c08_w2_fragment(BatchCfg cfg, std::string &json_fragment)
+{
+        SpecialOut so;
+        int n = check_c08_w2(cfg, so);
+        JW w;
+        w.obj();
+        w.num("cpu_feature_loss_initialisations", (int64_t) so.evals).num("distinct_cases", (int64_t) so.distinct.size());
+        w.obj("counters");
+        for (auto &kv : so.counters)
+                w.num(kv.first.c_str(), (int64_t) kv.second);
+        w.end_obj();
+        w.arr("samples");
+        for (auto &s : so.samples)
+                w.raw(nullptr, s);
+        w.end_arr();
+        w.str("rule", "fault F5: for each init function, each single required CPU feature hidden (exhaustive) plus seeded subsets, on a "
+                      "fresh manager and on a manager already initialised for a still-supported architecture with jobs parked; optional "
+                      "features hidden must still initialise");
+        w.end_obj();
+        json_fragment = w.out;
+        return n;
+}
+
+// replay of a special case record (fresh process)
+int
+special_replay(const JVal &root, bool verbose)
+{
+        JP cs = root.get("case");
+        if (!cs)
+                return 2;
+        std::string sp = cs->gets("special");
+        std::string want = root.gets("oracle");
+        arena::init();
+        sp_handlers();
+        std::vector<Violation> vs;
+        if (sp == "C20") {
+                StCase c;
+                c.cfg = (int) cs->geti("cfg");
+                c.via_auto = (int) cs->geti("via_auto");
+                c.parked = (int) cs->geti("parked");
+                if (JP a = cs->get("corrupt"))
+                        for (auto &x : a->a)
+                                c.corrupt.push_back((int) x->i);
+                vs = eval_st(c);
+        } else if (sp == "C08") {
+                CpuCase c;
+                c.init_fn = (int) cs->geti("init_fn");
+                c.remove = cs->getu("remove");
+                c.prior_cfg = (int) cs->geti("prior_cfg", -1);
+                c.parked = (int) cs->geti("parked");
+                vs = eval_cpu(c);
+        } else
+                return 2;
+        int rc = 0;
+        for (auto &v : vs) {
+                if (verbose)
+                        printf("violation: property=%s oracle=%s\n   %s\n", v.prop.c_str(), v.oracle.c_str(), v.detail.c_str());
+                if (want.empty() || v.oracle == want)
+                        rc = 1;
+        }
+        printf(rc ? "REPRODUCED\n" : "NOT-REPRODUCED\n");
+        return rc;
+}
+
+// C14: imb_get_strerror() is total (finite enumeration of its integer argument)
+int
+c14_strerror_fragment(std::string &json_fragment)
+{
+        int bad = 0;
+        uint64_t n = 0, distinct = 0;
+        std::set<std::string> msgs;
+        auto probe = [&](int e) {
+                const char *s = (const char *) tc("imb_get_strerror", g_img.imb_get_strerror, e);
+                n++;
+                if (!s) {
+                        if (bad++ < 3)
+                                printf("VIOLATION property=C14 replay=none\n  oracle=errno.strerror imb_get_strerror(%d) returned NULL\n", e);
+                        return;
+                }
+                size_t len = strnlen(s, 4096);
+                if (len == 0 || len >= 4096) {
+                        if (bad++ < 3)
+                                printf("VIOLATION property=C14 replay=none\n  oracle=errno.strerror imb_get_strerror(%d) returned an empty or unterminated string\n", e);
+                        return;
+                }
+                msgs.insert(s);
+        };
+        for (int e = -70000; e <= 70000; e++)
+                probe(e);
+        probe(INT32_MIN);
+        probe(INT32_MAX);
+        probe(INT32_MIN + 1);
+        probe(INT32_MAX - 1);
+        distinct = msgs.size();
+        JW w;
+        w.obj();
+        w.num("strerror_arguments_enumerated", (int64_t) n).num("distinct_messages", (int64_t) distinct);
+        w.str("range", "[-70000,70000] plus INT_MIN, INT_MIN+1, INT_MAX-1, INT_MAX (covers errno values, IMB_ERR_MIN..IMB_ERR_MAX and beyond)");
+        w.end_obj();
+        json_fragment = w.out;
+        return bad;
 }
